@@ -1821,3 +1821,48 @@ def r21_mmx_lane_consistency(ck, P, rid='C02-R21'):
                 ck.ok(R, '%s: pack8888 at %s' % (fn, c.loc()))
     if n == 0:
         ck.incomplete(R, 'no pack8888 call with lane-expanded inputs found')
+
+
+def r27_opacity_test_on_unpacked_pixel(ck, P, rid='C02-R27'):
+    """T-TYP (representation typestate over the scalar-replaced IR of the MMX unit): an __m64 holds either one pixel in 16 bits per channel
+    (what load8888 / expand / unpack produce and over / in / pix_multiply work on) or packed pixels (what memory, pack8888 and
+    _mm_packs_pu16 produce).  is_opaque() looks at byte 6 - the alpha of the unpacked form, the red byte of a packed pair."""
+    from .. import build, facts as _facts
+    R = ck.rule(rid, 'in pixman-mmx.c every argument of is_opaque is a pixel in the unpacked (16 bits per channel) representation - it derives, through phis and casts, from load8888 / expand8888 / expandx888 / expand565 / an unpack with zero / one of the unpacked arithmetic helpers - and never from a packed value (_mm_packs_pu16, pack8888, a plain 64-bit load): byte 6 of a packed pair of pixels is the red channel of the second pixel', floor=3)
+    if 'pixman-mmx.c' not in P.units:
+        raise AnalysisBroken('%s: pixman-mmx.c is not part of the build' % rid)
+    PS = _facts.Program(build.library_facts('S', only={'pixman-mmx.c'}))
+    u = PS.units['pixman-mmx.c']
+    UNPACKED = {'load8888', 'load8888u', 'expand8888', 'expandx888', 'expand565', 'expand4444', 'expand_alpha', 'expand_alpha_rev', 'invert_colors', 'over', 'over_rev_non_pre', 'in', 'in_over', 'pix_multiply', 'pix_add', 'pix_add_mul', 'negate', '_mm_unpacklo_pi8', '_mm_unpackhi_pi8'}
+    PACKED = {'_mm_packs_pu16', 'pack8888', 'load', 'ldq_u', '_mm_cvtsi32_si64', 'to_m64', 'pack_565', '_mm_packs_pi16', '_mm_packs_pi32'}
+    n = 0
+    for fn, f in sorted(u.functions.items()):
+        for c in f.calls('is_opaque'):
+            n += 1; ck.saw(f)
+            verdict = None; why = None
+            seen = set(); work = [c.a[0]]
+            while work and verdict is None:
+                o = work.pop()
+                y = f.v(o) if o and o[0] == 'v' else None
+                if y is None or y.i in seen:
+                    continue
+                seen.add(y.i)
+                if y.op in ('bitcast', 'freeze'):
+                    work.append(y.a[0])
+                elif y.op in ('phi', 'select'):
+                    work.extend(a for a in (y.a if y.op == 'phi' else y.a[1:]) if a and a[0] == 'v')
+                elif y.op == 'call' and y.callee in PACKED:
+                    verdict = False; why = y
+                elif y.op == 'call' and y.callee in UNPACKED:
+                    continue
+                elif y.op == 'load':
+                    verdict = False; why = y
+                else:
+                    continue
+            where = '%s: is_opaque at %s' % (fn, c.loc())
+            if verdict is False:
+                ck.violation(R, fn, 'is_opaque of a packed value at %s' % c.loc(), '%s applies is_opaque at %s to a value that comes from %s (%s), i.e. packed pixels: byte 6, which the test looks at, is then the red channel of a pixel and not its alpha, so a translucent pixel with red 0xff passes for opaque and is stored unblended' % (fn, c.loc(), why.callee if why.op == 'call' else 'a 64-bit load', why.loc()), c.loc())
+            else:
+                ck.ok(R, where, 'unpacked')
+    if n == 0:
+        raise AnalysisBroken('%s: no call of is_opaque found in pixman-mmx.c' % rid)
